@@ -22,7 +22,7 @@ Record case := {
   i_requests : list id;              (* every request or dial the fake network saw *)
   (* the same lookup through the public GetClosestPeers on a fresh node (C02):
      returned peers, did it return an error, did the bucket refresh stamp move *)
-  i_pub : option (list id * bool * option bool) }.
+  i_pub : option (list id * bool * option bool * bool) }.
 
 Definition env_of (l : list (id * outcome)) (p : id) : outcome :=
   match find (fun x => N.eqb (fst x) p) l with
@@ -246,17 +246,25 @@ Definition c02_end_ok (c : case) : bool :=
 Definition c02_contacted_ok (c : case) : bool :=
   if i_completed c then forallb (fun p => memN p (i_requests c)) (i_peers c) else true.
 
-(* GetClosestPeers: same peers; side effects exactly when completed and not cancelled *)
+(* GetClosestPeers (a second run of the same scenario through the public call): an error exactly
+   when that run was cancelled; side effects exactly when completed and not cancelled; the same
+   peers as the internal run when neither was cancelled.  The two runs are driven by the same
+   script, but goroutines that become runnable together may reach the network in either order, so
+   the cancellation instant (a step count) can fall inside one run and after the end of the other:
+   [pub_cancelled] is what happened in the public run itself. *)
 Definition c02_public_ok (c : case) : bool :=
   match i_pub c with
   | None => true
-  | Some (peers, err, moved) =>
-      list_eqb N.eqb peers (i_peers c) &&
-      match moved with   (* None: the key's bucket is outside the range the routing table reports *)
-      | Some mv => Bool.eqb mv (gcp_side_effects (negb (uncancelled c)) {| r_peers := i_peers c; r_states := i_states c; r_closest := i_closest c; r_completed := i_completed c |})
-      | None => true
-      end &&
-      Bool.eqb err (negb (uncancelled c))
+  | Some (peers, err, moved, pub_cancelled) =>
+      Bool.eqb err pub_cancelled &&
+      (if pub_cancelled then match moved with Some mv => negb mv | None => true end
+       else if uncancelled c then
+         list_eqb N.eqb peers (i_peers c) &&
+         match moved with   (* None: the key's bucket is outside the range the routing table reports *)
+         | Some mv => Bool.eqb mv (gcp_side_effects false {| r_peers := i_peers c; r_states := i_states c; r_closest := i_closest c; r_completed := i_completed c |})
+         | None => true
+         end
+       else true)
   end.
 
 Definition c02_prop_ok (c : case) : bool :=
